@@ -703,4 +703,159 @@ theorem Reach'.rinv {sub : Subject σ Op} {i : σ} {programs : List (List Op)} {
   | init => exact RInv.init i programs
   | step _ hen hs ih => exact ih.step hen hs
 
+
+/-! ### the subject state changes only through segments: an induction principle -/
+
+/-- the segment of `op` that thread `t` runs in subject state `s` (`first`: the invocation; otherwise a
+    re-check after a wake-up with context flag `c`) -/
+def segOut (sub : Subject σ Op) (s : σ) (t : Nat) (op : Op) (first c : Bool) : SegOut σ :=
+  if first then sub.start s t op else sub.resume s t op c
+
+/-- some segment of `op` can park -/
+def CanPark (sub : Subject σ Op) (op : Op) : Prop :=
+  ∃ s t first c cnd, (segOut sub s t op first c).fin = .park cnd
+
+/-- the event records what the subject really computes; an invocation sees a live context -/
+def Ev.genuine (sub : Subject σ Op) : Ev σ Op → Prop
+  | .seg t _ op first c pre out => out = segOut sub pre t op first c ∧ (first = true → c = false)
+  | .env _ => True
+
+theorem evOf_genuine (sub : Subject σ Op) (s : Sys σ Op) (a : Act) : (evOf sub s a).genuine sub := by
+  cases a with
+  | start t =>
+    cases h1 : s.ths[t]? with
+    | none => simp [evOf, h1, Ev.genuine]
+    | some th => cases h2 : th.ops[th.pc]? with
+      | none => simp [evOf, h1, h2, Ev.genuine]
+      | some op => simp [evOf, h1, h2, Ev.genuine, segOut]
+  | resume t =>
+    cases h1 : s.ths[t]? with
+    | none => simp [evOf, h1, Ev.genuine]
+    | some th => cases h2 : th.ops[th.pc]? with
+      | none => simp [evOf, h1, h2, Ev.genuine]
+      | some op => simp [evOf, h1, h2, Ev.genuine, segOut]
+  | cancel t => trivial
+  | fire t => trivial
+
+theorem Reach'.genuine {sub : Subject σ Op} {s0 s : Sys σ Op} {log : List (Ev σ Op)} (h : Reach' sub s0 log s) :
+    ∀ ev ∈ log, ev.genuine sub := by
+  induction h with
+  | init => intro ev hev; cases hev
+  | step _ _ _ ih =>
+    intro ev hev
+    simp only [List.mem_append, List.mem_singleton] at hev
+    rcases hev with hev | rfl
+    · exact ih ev hev
+    · exact evOf_genuine _ _ _
+
+/-- a prefix of a run is a run -/
+theorem Reach'.prefix {sub : Subject σ Op} {s0 s : Sys σ Op} {l1 l2 : List (Ev σ Op)}
+    (h : Reach' sub s0 (l1 ++ l2) s) : ∃ s1, Reach' sub s0 l1 s1 := by
+  generalize hl : l1 ++ l2 = log at h
+  induction h generalizing l2 with
+  | init =>
+    have : l1 = [] := by cases l1 <;> simp_all
+    subst this; exact ⟨_, Reach'.init⟩
+  | @step log s a s' obs hr hen hs ih =>
+    rcases List.eq_nil_or_concat l2 with rfl | ⟨l2', e, rfl⟩
+    · rw [List.append_nil] at hl; subst hl
+      exact ⟨_, Reach'.step hr hen hs⟩
+    · rw [List.concat_eq_append, ← List.append_assoc] at hl
+      have := List.append_inj' hl rfl
+      exact ih this.1
+
+/-- **Induction over the segments of a run.** The subject state of a run from an initial system is
+    changed by nothing but the segments `sub.start` (with a live context) and `sub.resume`; a `resume`
+    segment only ever runs for an operation that can park. `cancel`/`fire` actions and all signalling
+    leave the subject state unchanged. -/
+theorem Reach'.induction {sub : Subject σ Op} {i : σ} {programs : List (List Op)}
+    (I : List (Ev σ Op) → σ → Prop) (h0 : I [] i)
+    (hseg : ∀ log s t pc op first c, I log s → (first = true → c = false) → (first = false → CanPark sub op) →
+      I (log ++ [.seg t pc op first c s (segOut sub s t op first c)]) (segOut sub s t op first c).st)
+    (henv : ∀ log s a, I log s → I (log ++ [.env a]) s)
+    {log : List (Ev σ Op)} {s : Sys σ Op} (h : Reach' sub (initSys i programs) log s) : I log s.subj := by
+  induction h with
+  | init => exact h0
+  | @step log s a s' obs hr hen hs ih =>
+    have hI := hr.rinv
+    have hgen := hr.genuine
+    obtain ⟨-, -, hinfo⟩ := step_info hI.parkedOK hen hs
+    cases hinfo with
+    | seg t th th' op first o ha hth hop hst ho hev hsubj hth' hops hcanc hfin hoth =>
+      rw [hev, hsubj]
+      have ho' : o = segOut sub s.subj t op first (if first then false else th.cancelled) := by
+        cases first <;> simpa [segOut] using ho
+      rw [ho']
+      apply hseg _ _ _ _ _ _ _ ih
+      · intro hf; simp [hf]
+      · intro hf
+        subst hf
+        have hw : th.st = .woken := by simpa using hst
+        obtain ⟨op2, e1, -, ⟨f3, c3, pre3, out3, cnd3, e3, e4⟩⟩ := hI.inflight t th hth (Or.inl hw)
+        rw [hop] at e1; cases e1
+        have hg := hgen _ e3
+        simp only [Ev.genuine] at hg
+        exact ⟨pre3, t, f3, c3, cnd3, by rw [← hg.1]; exact e4⟩
+    | env t ha hev hsubj hths =>
+      rw [hev, hsubj]
+      exact henv _ _ _ ih
+
+
+/-! ### an executable way to build runs (used by the non-vacuity examples) -/
+
+theorem Reach'.trans {sub : Subject σ Op} {s0 s1 s2 : Sys σ Op} {l1 l2 : List (Ev σ Op)}
+    (h1 : Reach' sub s0 l1 s1) (h2 : Reach' sub s1 l2 s2) : Reach' sub s0 (l1 ++ l2) s2 := by
+  induction h2 with
+  | init => simpa using h1
+  | step _ hen hs ih => rw [← List.append_assoc]; exact Reach'.step ih hen hs
+
+/-- run a list of actions, each of which must be enabled -/
+def runActs (sub : Subject σ Op) (s : Sys σ Op) : List Act → Option (Sys σ Op × List (Ev σ Op))
+  | [] => some (s, [])
+  | a :: rest =>
+    if a ∈ enabled s true then
+      match step sub s a with
+      | some (s', _) =>
+        match runActs sub s' rest with
+        | some (s'', l) => some (s'', evOf sub s a :: l)
+        | none => none
+      | none => none
+    else none
+
+theorem runActs_reach {sub : Subject σ Op} {acts : List Act} : ∀ {s s' : Sys σ Op} {log : List (Ev σ Op)},
+    runActs sub s acts = some (s', log) → Reach' sub s log s' := by
+  induction acts with
+  | nil => intro s s' log h; simp only [runActs, Option.some.injEq, Prod.mk.injEq] at h; rw [← h.1, ← h.2]; exact Reach'.init
+  | cons a rest ih =>
+    intro s s' log h
+    simp only [runActs] at h
+    by_cases hen : a ∈ enabled s true
+    · simp only [hen, if_true] at h
+      cases hs : step sub s a with
+      | none => simp [hs] at h
+      | some p =>
+        obtain ⟨s1, obs⟩ := p
+        simp only [hs] at h
+        cases hr : runActs sub s1 rest with
+        | none => simp [hr] at h
+        | some q =>
+          obtain ⟨s2, l⟩ := q
+          simp only [hr, Option.some.injEq, Prod.mk.injEq] at h
+          rw [← h.1, ← h.2]
+          have h1 : Reach' sub s ([] ++ [evOf sub s a]) s1 := Reach'.step Reach'.init hen hs
+          exact Reach'.trans h1 (ih hr)
+    · simp [hen] at h
+
+
+/-- a Boolean check of the outcome of `runActs` yields a run with that property -/
+theorem runActs_witness {sub : Subject σ Op} {s : Sys σ Op} {acts : List Act} (chk : Sys σ Op → List (Ev σ Op) → Bool)
+    (h : (match runActs sub s acts with | some (s', log) => chk s' log | none => false) = true) :
+    ∃ log s', Reach' sub s log s' ∧ chk s' log = true := by
+  cases hr : runActs sub s acts with
+  | none => simp [hr] at h
+  | some p =>
+    obtain ⟨s', log⟩ := p
+    simp only [hr] at h
+    exact ⟨log, s', runActs_reach hr, h⟩
+
 end FunModel.Conc
